@@ -62,6 +62,39 @@ theorem C18_refines_lookup (h : List (List Nat × V)) (q : List Nat) (hq : q ≠
     rw [hl] at this; cases this
   | continue_ => simp
 
+/-- The same as one equation: on non-empty chords `lookup` on the trie is the specification's `answer` on the
+    replayed dictionary (this `answer` is the function the check applies, through the driver, to every history the
+    implementation was run on). -/
+theorem C18_answer (h : List (List Nat × V)) (q : List Nat) (hq : q ≠ []) :
+    lookup (registerAll (.nil : Map V) h) q = answer (bindAll [] h) q := by
+  obtain ⟨hs, hc, _⟩ := C18_refines_lookup h q hq
+  unfold answer
+  cases hf : (bindAll ([] : Dict V) h).find? (fun e => e.1 == q) with
+  | some e =>
+    have hmem := List.mem_of_find?_eq_some hf
+    have heq : e.1 = q := by simpa using List.find?_some hf
+    have : (q, e.2) ∈ bindAll ([] : Dict V) h := by rw [← heq]; exact hmem
+    exact (hs e.2).2 this
+  | none =>
+    rw [List.find?_eq_none] at hf
+    have hns : ∀ v, lookup (registerAll (.nil : Map V) h) q ≠ .success v := by
+      intro v hv
+      exact hf (q, v) ((hs v).1 hv) (by simp)
+    by_cases hany : (bindAll ([] : Dict V) h).any (fun e => q.isPrefixOf e.1) = true
+    · obtain ⟨e, he, hp⟩ := List.any_eq_true.1 hany
+      have hne : q ≠ e.1 := by intro heq; exact hf e he (by simp [heq])
+      simp only [hany, if_true]
+      exact hc.2 ⟨e.1, e.2, he, List.isPrefixOf_iff_prefix.1 hp, hne⟩
+    · have hnc : lookup (registerAll (.nil : Map V) h) q ≠ .continue_ := by
+        intro hc'
+        obtain ⟨c, w, hm, hp⟩ := hc.1 hc'
+        exact hany (List.any_eq_true.2 ⟨(c, w), hm, List.isPrefixOf_iff_prefix.2 hp.1⟩)
+      simp only [hany]
+      cases hl : lookup (registerAll (.nil : Map V) h) q with
+      | success v => exact absurd hl (hns v)
+      | continue_ => exact absurd hl hnc
+      | failure => rfl
+
 /-- Refinement, enumeration part: `for_each` lists exactly the bound chords with their values, each once, in
     strictly increasing key order (the order of Rust slices). -/
 theorem C18_refines_for_each (h : List (List Nat × V)) :
@@ -83,6 +116,25 @@ theorem C18_refines_override (h h' : List (List Nat × V)) :
     simp [registerOverride, registerAll, forEach_eq_abs]
   rw [this]
   exact abs_registerAll_perm (C18_no_empty_submap h) (C18_refines_abs h).1 _
+
+/-- Override merging seen through `lookup` (any two well-formed maps, non-empty chord): wherever the other map
+    has an opinion it wins — its bound chords answer with its values, their proper prefixes need more keys,
+    their extensions fail — and every chord unrelated to all of the other map's chords keeps the receiver's answer. -/
+theorem C18_override_lookup {m o : Map V} (ho : WF o) (q : List Nat) (hq : q ≠ []) :
+    lookup (registerOverride m o) q =
+      match lookup o q with
+      | .success v => .success v
+      | .continue_ => .continue_
+      | .failure => if (abs o).any (fun e => e.1.isPrefixOf q) then .failure else lookup m q :=
+  lookup_registerOverride ho q hq
+
+/-- a map meeting the hypothesis, with all four cases: receiver `a ↦ 1`, `b c ↦ 2`, `d ↦ 3`;
+    other `a b ↦ 7`, `b ↦ 8` -/
+example : let m := registerAll (.nil : Map Nat) [([1], 1), ([2, 3], 2), ([4], 3)]
+    let o := registerAll (.nil : Map Nat) [([1, 2], 7), ([2], 8)]
+    WF o ∧ lookup (registerOverride m o) [1] = .continue_ ∧ lookup (registerOverride m o) [2] = .success 8 ∧
+    lookup (registerOverride m o) [2, 3] = .failure ∧ lookup (registerOverride m o) [4] = .success 3 := by
+  refine ⟨C18_no_empty_submap _, by decide, by decide, by decide, by decide⟩
 
 /-- The four parts together. -/
 theorem C18_refines (h h' : List (List Nat × V)) :
@@ -183,7 +235,11 @@ theorem C18_key_code (a b : Key) (ha : a.name.payload < 2 ^ 64 ∧ a.mode < 2 ^ 
       rw [h4, h3]
     · rintro rfl; rfl
 
-example : (⟨.f 2, 0⟩ : Key).code < (⟨.f 10, 0⟩ : Key).code ∧ (⟨.char 'z', 511⟩ : Key).code < (⟨.delete, 0⟩ : Key).code := by
+/-- keys meeting the bounds (every real `Key` does: the payload is a `char` or a `usize`, the bits a `u32`):
+    `F2 < F10` numerically, and every `Char` key sorts before `Delete` whatever its modifiers -/
+example : ((⟨.f 2, 0⟩ : Key).name.payload < 2 ^ 64 ∧ (⟨.f 2, 0⟩ : Key).mode < 2 ^ 32) ∧
+    (⟨.f 2, 0⟩ : Key).code < (⟨.f 10, 0⟩ : Key).code ∧
+    (⟨.char 'z', 511⟩ : Key).code < (⟨.delete, 0⟩ : Key).code := by
   decide
 
 end SurfProofs.C18
